@@ -15,7 +15,8 @@ class Cube(Obj):
         super().__init__("Cube")
         self.data = data
         self.n = len(data)
-        self.attrs = {"shape": (self.n, self.n, 3)}
+        self.m = len(data[0]) if data else 0        # second dimension (= n except for ix_ selections)
+        self.attrs = {"shape": (self.n, self.m, len(data[0][0]) if data and data[0] else 3)}
         self.as_matrix = False      # True: `cube[:, :, k]` is a Mat (general numpy model); False: flattened Vec
         self.methods = {"flatten": lambda ev, call, a, kw: Vec([x for row in self.data for cell in row for x in cell])}
 
@@ -26,8 +27,24 @@ class Cube(Obj):
         if isinstance(idx, tuple) and len(idx) == 3 and isinstance(idx[0], slice) and isinstance(idx[1], slice) \
                 and isinstance(idx[2], int) and idx[0] == slice(None) and idx[1] == slice(None):
             if self.as_matrix:
-                return Mat([[self.data[i][j][idx[2]] for j in range(self.n)] for i in range(self.n)])
-            return Vec([self.data[i][j][idx[2]] for i in range(self.n) for j in range(self.n)])
+                return Mat([[self.data[i][j][idx[2]] for j in range(self.m)] for i in range(self.n)])
+            return Vec([self.data[i][j][idx[2]] for i in range(self.n) for j in range(self.m)])
+        if isinstance(idx, tuple) and len(idx) == 3 and isinstance(idx[0], slice) and isinstance(idx[1], slice) \
+                and isinstance(idx[2], int) and self.as_matrix:
+            m = Mat([[cell[idx[2]] for cell in row[idx[1]]] for row in self.data[idx[0]]])
+            m.frozen = True
+            return m
+        if isinstance(idx, tuple) and len(idx) == 3 and idx[0] == "ix_":
+            rows, cols = idx[1], idx[2]
+            for i in rows:
+                if not 0 <= i < self.n:
+                    raise Unsupported("ix_ row out of range", node)
+            for j in cols:
+                if not 0 <= j < self.m:
+                    raise Unsupported("ix_ column out of range", node)
+            c = Cube([[list(self.data[i][j]) for j in cols] for i in rows])
+            c.as_matrix = True
+            return c
         if isinstance(idx, int):
             if not 0 <= idx < self.n:
                 raise Unsupported("cube row out of range", node)
@@ -49,6 +66,12 @@ class GraphObj(Obj):
         self.directed = None
         self.methods = {
             "components": lambda ev, call, a, kw: self.components(),
+            "connected_components": lambda ev, call, a, kw: self.components(),
+            "clusters": lambda ev, call, a, kw: self.components(),
+            "topological_sorting": lambda ev, call, a, kw: self.topological_sorting(kw.get("mode", a[0] if a else "out")),
+            "vcount": lambda ev, call, a, kw: len(self.vertices),
+            "ecount": lambda ev, call, a, kw: len(self.edges),
+            "get_edgelist": lambda ev, call, a, kw: [tuple(e) for e in self.edges],
             "add_vertex": self._add_vertex,
             "add_vertices": self._add_vertices,
             "add_edges": self._add_edges,
@@ -70,41 +93,126 @@ class GraphObj(Obj):
 
 
 
-    def components(self) -> List[List[int]]:
-        """Strongly connected components in a topological order of the condensation (sources first), each sorted -
-        the order the analysed code assumes igraph returns."""
+    def _adj(self):
         n = len(self.vertices)
         adj: Dict[int, List[int]] = {i: [] for i in range(n)}
         for a, b in self.edges:
             adj[int(a)].append(int(b))
-        index: Dict[int, int] = {}
-        low: Dict[int, int] = {}
-        on = set()
-        stack: List[int] = []
-        out: List[List[int]] = []
-        counter = [0]
+        for v in adj:
+            adj[v].sort()
+        return n, adj
 
-        def strong(v):
-            index[v] = low[v] = counter[0]
-            counter[0] += 1
-            stack.append(v)
-            on.add(v)
+    def components(self, mode="strong") -> "Clustering":
+        """Strongly connected components numbered as igraph numbers them: depth-first search over out-neighbours
+        (vertices and neighbours by increasing id) to get the finishing order, then a sweep over in-neighbours from the
+        last finished vertex - source components first, i.e. a topological order of the condensation, with igraph's
+        own choice among the incomparable components. Each component lists its vertices by increasing id."""
+        n, adj = self._adj()
+        radj: Dict[int, List[int]] = {i: [] for i in range(n)}
+        for v, ws in adj.items():
+            for w in ws:
+                radj[w].append(v)
+        nxt = [0] * n
+        out: List[int] = []
+        for i in range(n):
+            if nxt[i] > len(adj[i]):
+                continue
+            if nxt[i] != 0:
+                continue
+            stack = [i]
+            while stack:
+                act = stack[-1]
+                if nxt[act] == 0:
+                    nxt[act] = 1
+                if nxt[act] <= len(adj[act]):
+                    nb = adj[act][nxt[act] - 1]
+                    if nxt[nb] == 0:
+                        stack.append(nb)
+                    nxt[act] += 1
+                else:
+                    out.append(act)
+                    stack.pop()
+        member = [-1] * n
+        clusters: List[List[int]] = []
+        while out:
+            g = out.pop()
+            if member[g] != -1:
+                continue
+            member[g] = len(clusters)
+            comp = [g]
+            q = [g]
+            while q:
+                act = q.pop()
+                for nb in radj[act]:
+                    if member[nb] == -1:
+                        member[nb] = len(clusters)
+                        comp.append(nb)
+                        q.append(nb)
+            clusters.append(sorted(comp))
+        return Clustering(self, clusters, member)
+
+    def topological_sorting(self, mode="out") -> List[int]:
+        """igraph's: sources queued by increasing id, first in first out, successors released in increasing id."""
+        n, adj = self._adj()
+        if mode == "in":
+            radj: Dict[int, List[int]] = {i: [] for i in range(n)}
+            for v, ws in adj.items():
+                for w in ws:
+                    radj[w].append(v)
+            adj = {v: sorted(ws) for v, ws in radj.items()}
+        indeg = [0] * n
+        for v, ws in adj.items():
+            for w in ws:
+                indeg[w] += 1
+        queue = [i for i in range(n) if indeg[i] == 0]
+        res = []
+        while queue:
+            v = queue.pop(0)
+            res.append(v)
             for w in adj[v]:
-                if w not in index:
-                    strong(w)
-                    low[v] = min(low[v], low[w])
-                elif w in on:
-                    low[v] = min(low[v], index[w])
-            if low[v] == index[v]:
-                comp = []
-                while True:
-                    w = stack.pop()
-                    on.discard(w)
-                    comp.append(w)
-                    if w == v:
-                        break
-                out.append(sorted(comp))
-        for v in range(n):
-            if v not in index:
-                strong(v)
-        return list(reversed(out))      # Tarjan emits sinks first
+                indeg[w] -= 1
+                if indeg[w] == 0:
+                    queue.append(w)
+        return res
+
+
+class Clustering(Obj):
+    """igraph.VertexClustering stand-in: iterable / indexable list of components plus the few methods used on it."""
+
+    def __init__(self, graph: "GraphObj", clusters: List[List[int]], membership: List[int]):
+        super().__init__("VertexClustering")
+        self.graph = graph
+        self.clusters = clusters
+        self.member = membership
+        self.methods = {
+            "cluster_graph": lambda ev, call, a, kw: self.cluster_graph(),
+            "sizes": lambda ev, call, a, kw: [len(c) for c in self.clusters],
+            "giant": lambda ev, call, a, kw: max(self.clusters, key=len),
+        }
+        self.attrs = {"membership": list(membership), "graph": graph}
+
+    def abs_iter(self):
+        return [list(c) for c in self.clusters]
+
+    def abs_len(self):
+        return len(self.clusters)
+
+    def abs_getitem(self, idx, node):
+        if isinstance(idx, int) and not isinstance(idx, bool) and -len(self.clusters) <= idx < len(self.clusters):
+            return list(self.clusters[idx])
+        if isinstance(idx, slice):
+            return [list(c) for c in self.clusters[idx]]
+        raise Unsupported(f"clustering index {idx!r}", node)
+
+    def cluster_graph(self) -> "GraphObj":
+        g = GraphObj()
+        g.directed = self.graph.directed
+        g.vertices = [str(i) for i in range(len(self.clusters))]
+        seen = set()
+        for a, b in self.graph.edges:
+            e = (self.member[int(a)], self.member[int(b)])
+            if e[0] != e[1] and e not in seen:
+                seen.add(e)
+                g.edges.append(e)
+        g.edges.sort()
+        return g
